@@ -39,6 +39,9 @@ fixed("FX-C01-01", "C01", "fae98e2", "same frame overlap seen as a crash/garbled
 fixed("FX-C13-01", "C13", "fdd90a3", "MarshalIndent of struct{A int; N *Self} nested 4 deep emitted 165 KB of indentation (saved BaseIndent slot of the recursive frame overlapped the callee's slot 0; slot monitor rule R2)")
 fixed("FX-C08-02", "C08", "fdd90a3", "same overlap seen by the slot-ownership monitor: R2 frame read slot last written by a later frame in vm_indent")
 
+fixed("FX-C17-01", "C17", "a291d9d", "Decoder fed one byte at a time decodes \"a\u00e9\u20acb\" (raw UTF-8) to a + five U+FFFD + b: a multi-byte character split across reads was replaced")
+fixed("FX-C09-01", "C09", "a291d9d", "same split multi-byte character defect seen as stream != buffer for chunk sizes 1..3")
+
 # ------------------------------------------------------------------ C05
 ALL15 = r"(Valid|Unmarshal:.+|Decode:.+)"
 STREAM = r"(Valid|Decode:.+)"
@@ -261,6 +264,20 @@ known("KF-C04-STREAM", "C04", "roundtrip", r"Encoder→Decoder", r"stream-differ
 # ------------------------------------------------------------------ C08
 SAFE = r"(panic:.+|fatal:.+|checkptr:.+|asan:.+|excessive-allocation|slot-clobber:.+)"
 feature_entries("C08", "(enc-safety|slot-owner)", "KF-C08", SAFE, ["ptr2\\+", "array1-ptr-shaped-elem", "struct-ptr-shaped", "mapkey-marshaler", "nilable-marshalerV", "ptr-to-marshaler", "embedded-structof", "tags-zoo"])
+
+# ------------------------------------------------------------------ C16
+known("KF-C16-01", "C16", "int-decode", None, r"accepts:bare-minus", r"int(8|16|32|64)?:(plain|pointer|map-key|string-tag|stream)",
+      'Unmarshal("-", &int64) = nil, value 0', "internal/decoder/int.go decodeByte/parseInt: a '-' with no digits parses as 0", "nothing else (exact class)", "small, but changes behaviour upstream tests may pin; left as finding")
+known("KF-C16-02", "C16", "int-decode", None, r"accepts:leading-zero", r"u?int(8|16|32|64|ptr)?:(plain|pointer|map-key|string-tag|stream)",
+      'Unmarshal("01", &int) = nil, value 1; {"007":true} into map[uint8]bool', "internal/decoder/int.go, uint.go: digit loop accepts any run of digits", "nothing else (exact class)", "same lenient number scanner as KF-C05-01")
+known("KF-C16-03", "C16", "int-decode", None, r"accepts:(exponent|fraction|fraction\+exponent|non-digit|plus-sign)", r"u?int(8|16|32|64|ptr)?:(map-key|string-tag|stream)",
+      '{"1.5":true} into map[int]bool stores key 1; {"v":"1e2"} with ,string stores 1; NewDecoder("1-").Decode(&int) = 1', "internal/decoder/int.go, uint.go, wrapped_string.go, map.go: the integer scanner stops at the first non-digit and in these positions nobody looks at the rest",
+      "another non-integer literal accepted in map-key / ,string / stream position", "needs end-of-token validation in three wrappers")
+
+# ------------------------------------------------------------------ C17
+known("KF-C17-01", "C17", "str-encode", r"DisableNormalizeUTF8", r"raw-u2028/9", r"(value|key):.*u2028/9.*",
+      'MarshalWithOption("\\u2028", DisableNormalizeUTF8()) emits the raw three bytes although HTML escaping is on', "internal/encoder/string.go: U+2028/9 are escaped by the UTF-8 normalising tables only",
+      "nothing else (exact class)", "the option is documented as switching the whole normalising pass off")
 
 json.dump({"comment": "generated by tools/gen_known.py; never written at check time", "findings": F},
           open(os.path.join(os.path.dirname(os.path.abspath(__file__)), "..", "known_findings.json"), "w"), indent=1, ensure_ascii=False)
